@@ -80,8 +80,10 @@ type fnTrans struct {
 	frefs    map[string]bool
 	nonblocking bool
 	callTexts   map[token.Pos]string
+	callFull    map[token.Pos]string
 	candCache   map[string][]varCand
 	curIdx      int
+	iterCovered map[string]int
 }
 
 func (tr *fnTrans) note(f string, a ...interface{}) {
@@ -169,7 +171,13 @@ func (tr *fnTrans) havocAll(st *State) {
 }
 
 func (tr *fnTrans) fref(structName, field string) string {
-	return tr.c.declFun("fref:"+structName+"."+field, []Sort{"Ref"}, "Ref")
+	name := "fref:" + structName + "." + field
+	if !tr.c.declared[q(name)] {
+		f := tr.c.declFun(name, []Sort{"Ref"}, "Ref")
+		tr.c.axioms = append(tr.c.axioms, fmt.Sprintf("(forall ((qv!x Ref)) (! (and (= (allocT (%s qv!x)) (allocT qv!x)) (=> (not (= qv!x nilref)) (not (= (%s qv!x) nilref)))) :pattern ((%s qv!x))))", f, f, f))
+		return f
+	}
+	return q(name)
 }
 
 func (tr *fnTrans) clock(st *State) string { return tr.get(st, "$clock", "Int") }
@@ -198,6 +206,14 @@ func (tr *fnTrans) compForModifies(name string) (string, error) {
 		}
 		tr.regComp("G:"+name, s)
 		return "G:" + name, nil
+	}
+	if strings.HasPrefix(name, "recvlog_") {
+		vs := name[len("recvlog_"):]
+		if t := tr.eng.LookupGoType(vs, tr.c.home); t != nil && !baseSorts[vs] {
+			vs = tr.c.sortOf(t)
+		}
+		tr.regComp("G:recvlog_"+vs, "(Array Ref (Array Int "+vs+"))")
+		return "G:recvlog_" + vs, nil
 	}
 	if strings.HasPrefix(name, "sentlog_") {
 		vs := name[len("sentlog_"):]
@@ -261,6 +277,12 @@ func (tr *fnTrans) oblige(kind, local, goal string, p token.Pos, props []string,
 func (tr *fnTrans) obligeG(guard, kind, local, goal string, p token.Pos, props []string, src string) {
 	if props == nil {
 		props = tr.props
+		switch kind {
+		case "nil", "bounds", "panic", "send", "recv", "select", "close", "makechan", "makeslice", "slice", "typeassert", "div", "frame", "anchor", "decreases":
+			if len(tr.spec.Safety) > 0 {
+				props = tr.spec.Safety
+			}
+		}
 	}
 	tr.obls = append(tr.obls, &Obligation{Name: tr.key + "." + local, Func: tr.key, Kind: kind, Label: local, Guard: guard, Goal: goal,
 		Props: props, Pos: tr.pos(p), Src: src})
@@ -292,6 +314,13 @@ type loc struct {
 	base  string // ref term (locField, locCell, locObj)
 	t     types.Type
 	known bool // base known non-nil
+}
+
+func fieldName(st *types.Struct, i int) string {
+	if n := st.Field(i).Name(); n != "_" {
+		return n
+	}
+	return fmt.Sprintf("_%d", i)
 }
 
 func isStructType(t types.Type) bool {
@@ -434,11 +463,12 @@ func (tr *fnTrans) load(st *State, l loc) Term {
 		var args []string
 		for i := 0; i < st2.NumFields(); i++ {
 			f := st2.Field(i)
+			fname := fieldName(st2, i)
 			var fl loc
 			if isStructType(f.Type()) {
-				fl = loc{kind: locObj, base: app(tr.fref(structCanon(named), f.Name()), l.base), t: f.Type()}
+				fl = loc{kind: locObj, base: app(tr.fref(structCanon(named), fname), l.base), t: f.Type()}
 			} else {
-				fl = loc{kind: locField, comp: "H:" + structCanon(named) + "." + f.Name(), base: l.base, t: f.Type()}
+				fl = loc{kind: locField, comp: "H:" + structCanon(named) + "." + fname, base: l.base, t: f.Type()}
 			}
 			args = append(args, tr.load(st, fl).S)
 		}
@@ -475,11 +505,12 @@ func (tr *fnTrans) store(st *State, l loc, v Term) {
 		si := c.structSort(l.t)
 		for i := 0; i < st2.NumFields(); i++ {
 			f := st2.Field(i)
-			fv := Term{app(si.acc(f.Name()), v.S), c.sortOf(f.Type()), f.Type()}
+			fname := fieldName(st2, i)
+			fv := Term{app(si.acc(fname), v.S), c.sortOf(f.Type()), f.Type()}
 			if isStructType(f.Type()) {
-				tr.store(st, loc{kind: locObj, base: app(tr.fref(structCanon(named), f.Name()), l.base), t: f.Type()}, fv)
+				tr.store(st, loc{kind: locObj, base: app(tr.fref(structCanon(named), fname), l.base), t: f.Type()}, fv)
 			} else {
-				tr.store(st, loc{kind: locField, comp: "H:" + structCanon(named) + "." + f.Name(), base: l.base, t: f.Type()}, fv)
+				tr.store(st, loc{kind: locField, comp: "H:" + structCanon(named) + "." + fname, base: l.base, t: f.Type()}, fv)
 			}
 		}
 	}
@@ -509,7 +540,7 @@ func (tr *fnTrans) compsOfLoc(l loc, out map[string]bool) {
 			if isStructType(f.Type()) {
 				tr.compsOfLoc(loc{kind: locObj, base: "x", t: f.Type()}, out)
 			} else {
-				tr.compsOfLoc(loc{kind: locField, comp: "H:" + structCanon(named) + "." + f.Name(), base: "x", t: f.Type()}, out)
+				tr.compsOfLoc(loc{kind: locField, comp: "H:" + structCanon(named) + "." + fieldName(st2, i), base: "x", t: f.Type()}, out)
 			}
 		}
 	}
@@ -599,6 +630,7 @@ func (tr *fnTrans) wf(v Term, t types.Type) {
 		}
 	case "Slice":
 		tr.assume(and(app("<=", "0", app("s_len", v.S)), app("<=", app("s_len", v.S), app("s_cap", v.S)), app("<=", "0", app("s_off", v.S)),
+			app("<=", app("s_cap", v.S), "9223372036854775807"),
 			imp(app("=", app("s_arr", v.S), "nilref"), app("=", app("s_cap", v.S), "0")),
 			app("<", app("allocT", app("s_arr", v.S)), tr.clock(tr.cur))))
 	case "Ref":
